@@ -19,7 +19,7 @@ func init() {
 	Registry["C08"] = &Prop{
 		Plan: func(tier string) Plan {
 			return Plan{Level: "exploration", NCases: pick(tier, 64, 1500), Batch: 4, CaseTimeout: 120,
-				Rule: "one case = a PRNG sequence of 6-20 compaction requests (increasing, repeated, decreasing, 0, above current) interleaved with writes on one engine; after each accepted compaction the monitor raises floor=max(floor, effective revision from the response header), reads the stored compaction record, and issues List / ListByStream at revisions around every past floor and Count at latest. " +
+				Rule: "one case = a PRNG sequence of 6-20 compaction requests (increasing, repeated, decreasing, 0, above current) interleaved with writes on one engine; after each accepted compaction the monitor raises floor=max(floor, effective revision from the response header), reads the stored compaction record, and issues List / ListByStream at revisions around every past floor and Count at latest, on the compacting node and on a second node over the same store (which adopts the first node's read revision as a follower does). " +
 					"non-trivial = sequence containing >=1 request naming an older revision than an earlier accepted one and >=1 read refused below the floor; distinct by (engine, request vector)",
 				Assumptions: []string{"only compactions that returned without error raise the monitor's floor"},
 				MinConcl:    pick(tier, 50, 1200)}
@@ -49,6 +49,10 @@ func runC08(c *harness.Case) {
 	}
 	defer eng.Close()
 	defer n.Retire()
+	// a second node over the same store (a follower serves reads too): it must refuse what the compacting node refuses
+	var fkv = n.KV
+	f := harness.NewNode(harness.NodeOpts{KV: fkv, Config: backend.Config{EnableEtcdCompatibility: true}})
+	defer f.Retire()
 	m := harness.NewModel()
 	var hist []string
 	wit := func() interface{} { return map[string]interface{}{"engine": kind, "history": hist} }
@@ -140,6 +144,25 @@ func runC08(c *harness.Case) {
 			lr, lerr := n.List(full, fullEnd, R, 0)
 			c.Stat("range_reads", 1)
 			batches, _ := streamAll(n, encS, encE, R)
+			// the same reads on the other node, which adopts the compacting node's read revision as a follower does
+			f.B.SetCurrentRevision(n.Committed())
+			flr, flerr := f.List(full, fullEnd, R, 0)
+			fbatches, _ := streamAll(f, encS, encE, R)
+			c.Stat("range_reads_on_second_node", 1)
+			if R < floor {
+				if flerr == nil {
+					c.Violatef("C08 range-read-below-floor-served node=second-node-on-same-store", wit(), "List at revision %d on a second node over the same store returned %d kvs although a compaction at %d had been accepted by the first node", R, len(flr.Kvs), floor)
+				}
+				for _, b := range fbatches {
+					if b.RangeResponse.GetMore() {
+						c.Violatef("C08 stream-below-floor-served-data node=second-node-on-same-store", wit(), "ListByStream at revision %d on a second node delivered data although the floor is %d", R, floor)
+					}
+				}
+			} else if flerr != nil {
+				c.Violatef("C08 range-read-at-or-above-floor-refused node=second-node-on-same-store", wit(), "List at revision %d (floor %d) on the second node failed: %v", R, floor, flerr)
+			} else if !sameKVs(m.Snapshot(full, fullEnd, R), flr.Kvs) {
+				c.Violatef("C08 range-read-above-floor-differs node=second-node-on-same-store", wit(), "List at revision %d on the second node = %s; snapshot %s", R, kvStr(flr.Kvs), mkvStr(m.Snapshot(full, fullEnd, R)))
+			}
 			if R < floor {
 				if lerr == nil {
 					c.Violatef("C08 range-read-below-floor-served", wit(), "List at revision %d returned %d kvs although a compaction at %d had been accepted (last request: Compact(%d) [%s])", R, len(lr.Kvs), floor, req, kindReq)
